@@ -16,7 +16,7 @@ use refmodel::state::*;
 use refmodel::x509::*;
 use std::sync::{Arc, Mutex};
 
-pub const N_OPS: usize = 14;
+pub const N_OPS: usize = 16;
 
 pub fn op_name(i: usize) -> &'static str {
     [
@@ -34,6 +34,8 @@ pub fn op_name(i: usize) -> &'static str {
         "self-sign with duplicate EKUs",
         "CSR with the larger RSA key (3072 bits)",
         "leaf for the larger RSA key under A",
+        "load the RSA key as SHA-512 and sign a request",
+        "load the RSA key with algorithm detection and sign a request",
     ][i]
 }
 
@@ -47,6 +49,8 @@ pub struct World {
     pub ca_a: Certificate,
     pub ca_b: Certificate,
     pub csr_der: Vec<u8>,
+    /// PKCS#8 of the 2048-bit RSA key, for the operations that LOAD a key (what a loader remembers must not show later)
+    pub rsa_der: Vec<u8>,
 }
 
 fn st_a(kid: KeyIdSpec) -> CertState {
@@ -101,7 +105,7 @@ pub fn world(zoo: &[ZooKey]) -> World {
     let ca_a = to_params(&st_a(KeyIdSpec::Sha256)).unwrap().self_signed(&key_a).unwrap();
     let ca_b = to_params(&st_b()).unwrap().self_signed(&key_b).unwrap();
     let csr_der = to_params(&st_csr()).unwrap().serialize_request(&leaf_key).unwrap().der().to_vec();
-    World { key_a, key_b, leaf_key, big_key, ca_a, ca_b, csr_der }
+    World { key_a, key_b, leaf_key, big_key, ca_a, ca_b, csr_der, rsa_der: l.der.clone() }
 }
 
 /// Execute operation `i`; returns the complete output bytes (all signatures here are deterministic:
@@ -135,6 +139,18 @@ pub fn exec(w: &World, i: usize) -> Result<Vec<u8>, String> {
                 p.signed_by(&w.ca_a, &w.key_a).map_err(e)?.der().to_vec()
             }
             12 => to_params(&st_csr())?.serialize_request(&w.big_key).map_err(e)?.der().to_vec(),
+            #[cfg(feature = "crypto")]
+            14 => {
+                let k = KeyPair::from_pkcs8_der_and_sign_algo(&pki_types::PrivatePkcs8KeyDer::from(w.rsa_der.clone()), &rcgen::PKCS_RSA_SHA512).map_err(e)?;
+                to_params(&st_csr())?.serialize_request(&k).map_err(e)?.der().to_vec()
+            }
+            #[cfg(feature = "crypto")]
+            15 => {
+                let k = KeyPair::try_from(w.rsa_der.as_slice()).map_err(e)?;
+                let mut out = format!("{:?} ", k.algorithm()).into_bytes();
+                out.extend_from_slice(to_params(&st_csr())?.serialize_request(&k).map_err(e)?.der());
+                out
+            }
             13 => to_params(&st_leaf())?.signed_by(&w.big_key, &w.ca_a, &w.key_a).map_err(e)?.der().to_vec(),
             _ => {
                 let mut st = st_a(KeyIdSpec::Sha256);
@@ -712,6 +728,54 @@ pub fn run(prop: &str, tier: &str, replay: Option<&str>) -> i32 {
             out.findings.dedup_by(|a, b| a.sig() == b.sig());
             out
         });
+        rep.add(sec);
+    }
+    // (d0) the subject key given as the very object that is also the issuer's key, as an equal copy of it, and as a bare
+    // SubjectPublicKeyInfo of it: the to-be-signed bytes depend on the key, not on which object carries it
+    if run::replay().is_none() {
+        let sec = Section::new("roles/identity-vs-equality", "a certificate for the issuer's own key under another name (self-issued), over CA flag x AKI flag x key-identifier method x 3 serials: subject key passed as the issuer's key object itself, as a reloaded copy, as a parsed SubjectPublicKeyInfo and through a request: identical to-be-signed bytes");
+        let zoo3 = load_zoo();
+        let zb = zoo3.iter().find(|z| z.kind == KeyKind::Ed25519 && z.name.contains("_2")).unwrap();
+        let copy = rc_load(zb, Alg::Ed25519).unwrap();
+        let spki = rcgen::SubjectPublicKeyInfo::from_der(&zb.spki).unwrap();
+        let mut n = 0u64;
+        for is_ca in [IsCaSpec::NoCa, IsCaSpec::ExplicitNoCa, IsCaSpec::Unconstrained, IsCaSpec::Constrained(0)] {
+            for aki in [false, true] {
+                for kid in [KeyIdSpec::Sha256, KeyIdSpec::Sha512, KeyIdSpec::Pre(vec![1, 2, 3])] {
+                    for serial in [None, Some(vec![5u8]), Some(vec![0x7f; 20])] {
+                        let mut st = st_leaf();
+                        st.is_ca = is_ca;
+                        st.use_aki = aki;
+                        st.key_id = kid.clone();
+                        st.serial = serial.clone();
+                        let mut out = Outcome::default();
+                        let tbs = |der: Vec<u8>| refmodel::x509::decode_cert(&der).value.map(|a| a.tbs_raw).unwrap_or_default();
+                        let r = guarded(|| -> Result<Vec<Vec<u8>>, String> {
+                            let e = |e: rcgen::Error| format!("{:?}", e);
+                            let p = to_params(&st)?;
+                            let same = p.clone().signed_by(&w.key_b, &w.ca_b, &w.key_b).map_err(e)?;
+                            let equal = p.clone().signed_by(&copy, &w.ca_b, &w.key_b).map_err(e)?;
+                            let bare = p.clone().signed_by(&spki, &w.ca_b, &w.key_b).map_err(e)?;
+                            Ok(vec![tbs(same.der().to_vec()), tbs(equal.der().to_vec()), tbs(bare.der().to_vec())])
+                        });
+                        out.transitions = 3;
+                        match r {
+                            Ok(Ok(v)) => {
+                                out.digest = fnv(&v[0]);
+                                if v[0] != v[1] || v[0] != v[2] {
+                                    out.findings.push(Finding::new("OUTPUT-DEPENDS-ON-OBJECT-IDENTITY", "signed_by", format!("to-be-signed bytes differ between the issuer's own key object, an equal copy and a SubjectPublicKeyInfo of the same key (object vs copy: {}, object vs SPKI: {})", v[0] == v[1], v[0] == v[2])));
+                                }
+                            }
+                            other => out.unexpected_err = Some(format!("{:?}", other.map(|r| r.map(|_| ())))),
+                        }
+                        let l = format!("is_ca={:?} aki={} kid={:?} serial={:?}", is_ca, aki, kid, serial);
+                        sec.record(&|| l.clone(), &|| serde_json::json!({"index": n}), out);
+                        n += 1;
+                    }
+                }
+            }
+        }
+        sec.level_done("complete product");
         rep.add(sec);
     }
     // (d1) accessor histories: what an object hands out does not depend on what it was asked before (der after pem, pem
